@@ -113,13 +113,16 @@ PROPS["C08"] = {
 PROPS["C09"] = {
     "pkg": "c09", "level": "exploration",
     "jobs": {
-        "quick": [{"name": "expiry", "run": "^TestExpiryHistories$", "checks": 48000, "shards": 8, "steps": 40}],
-        "thorough": [{"name": "expiry", "run": "^TestExpiryHistories$", "checks": 1200000, "shards": 16, "steps": 60, "timeout": 1700}],
+        "quick": [{"name": "expiry", "run": "^TestExpiryHistories$", "checks": 48000, "shards": 8, "steps": 40},
+                  {"name": "binary", "run": "^TestBinaryExpiryConfig$", "checks": 48, "shards": 16, "binary": True, "shrinktime": "1s"}],
+        "thorough": [{"name": "expiry", "run": "^TestExpiryHistories$", "checks": 1200000, "shards": 16, "steps": 60, "timeout": 1700},
+                     {"name": "binary", "run": "^TestBinaryExpiryConfig$", "checks": 1600, "shards": 16, "binary": True, "shrinktime": "1s", "timeout": 1700}],
     },
     "assumptions": [
         "a datapoint's timestamp is the (injected) clock reading when it is received, as in production where both come from the wall clock",
         "Flush, Process and Reset of one flush happen at one clock reading",
         "equal-timestamp gauge datapoints: any of the tied values is accepted",
+        "the binary job runs on real time: flushes are counted by a heartbeat series, 'kept' is asserted only for intervals of 0 or 5 minutes, 'expires' only as absence from some flush within 60 s",
     ],
 }
 
